@@ -321,4 +321,205 @@ theorem introspect_entryParams_eq {doc : Doc} {s : Schema} (h : AcceptedFacts do
   exact edgeWithParams_eq h h.rootMem hf (root_field_is_edge h hf)
 
 
+/-! #### `implementer` (what the code reports) -/
+
+theorem filterMap_find_names {vts : List TypeDef} (hnd : (vts.map (·.name)).Nodup) (l : List TypeDef)
+    (hl : ∀ x ∈ l, x ∈ vts) :
+    (l.map (·.name)).filterMap (fun n => (findType vts n).map Vertex.vertexType) = l.map Vertex.vertexType := by
+  induction l with
+  | nil => rfl
+  | cons x xs ih =>
+    simp only [List.map_cons, List.filterMap_cons, findType_of_mem hnd (hl x (by simp)), Option.map_some]
+    rw [ih (fun y hy => hl y (by simp [hy]))]
+
+/-- `x` is reported as an implementer of `t`: it is `t` itself or lists `t` in its `implements`. -/
+def reportsImplementer (t x : TypeDef) : Bool := x.name == t.name || x.implements.contains t.name
+
+def implementerRow (t x : TypeDef) : Row := [("name", .str t.name), ("implementer", .str x.name)]
+
+theorem introspect_implementer_eq {doc : Doc} {s : Schema} (h : AcceptedFacts doc s) :
+    introspect s .implementer = .ok ((listed doc s.queryType.name).flatMap fun t =>
+      ((sortByName doc.types).filter (reportsImplementer t)).map (implementerRow t)) := by
+  unfold introspect
+  apply rows_perVertexType h
+  intro t ht
+  have htm := listed_mem ht
+  have hsub : s.subtypes t.name =
+      some (((sortByName doc.types).filter (reportsImplementer t)).map (·.name)) := by
+    simp only [Schema.subtypes, h.vertexTypes, findType_of_mem h.distinct.1 htm, Option.isSome_some, if_true]
+    rfl
+  simp only [perVertexType, outputs, resolveProperty, asVertexType, Outcome.bind, expand, resolveNeighbors,
+    String.reduceBEq, Bool.false_eq_true, if_false, if_true, hsub, h.vertexTypes]
+  rw [filterMap_find_names h.distinct.1 _ (fun x hx => (mem_sortByName _ _).mp (List.mem_filter.mp hx).1)]
+  rw [collect_map, collect_singletons _ (fun x : TypeDef => [("implementer", Cell.str x.name)])]
+  · simp [implementerRow]
+  · intro x _
+    simp [leaf, outputs, resolveProperty, asVertexType, Outcome.bind]
+
+theorem perm_flatMap_of_forall {α β : Type} (l : List α) (f g : α → List β)
+    (h : ∀ a ∈ l, (f a).Perm (g a)) : (l.flatMap f).Perm (l.flatMap g) := by
+  induction l with
+  | nil => exact List.Perm.refl _
+  | cons a as ih =>
+    simp only [List.flatMap_cons]
+    exact List.Perm.append (h a (by simp)) (ih (fun b hb => h b (by simp [hb])))
+
+/-- The same rows, up to the order of the definitions. -/
+theorem introspect_implementer_perm {doc : Doc} {s : Schema} (h : AcceptedFacts doc s) :
+    ∃ rows, introspect s .implementer = .ok rows ∧
+      rows.Perm ((listed doc s.queryType.name).flatMap fun t =>
+        (doc.types.filter (reportsImplementer t)).map (implementerRow t)) := by
+  refine ⟨_, introspect_implementer_eq h, ?_⟩
+  apply perm_flatMap_of_forall
+  intro t _
+  exact ((sortByName_perm doc.types).filter _).map _
+
+/-- Who is reported: the type itself, and the types that list it in `implements` (which, the
+`implements` lists of a valid schema being transitively closed, are all its subtypes). -/
+theorem reportsImplementer_iff (t x : TypeDef) :
+    reportsImplementer t x = true ↔ x.name = t.name ∨ t.name ∈ x.implements := by
+  simp [reportsImplementer]
+
+/-! #### The adapter contract on the modelled helpers -/
+
+theorem resolvePropertyWith_spec {κ : Type} (resolver : Vertex → Outcome Cell)
+    (ctxs : List (κ × Option Vertex)) (out : List ((κ × Option Vertex) × Cell))
+    (h : resolvePropertyWith resolver ctxs = .ok out) :
+    out.map (·.1) = ctxs ∧ ∀ e ∈ out, e.1.2 = none → e.2 = Cell.null := by
+  induction ctxs generalizing out with
+  | nil => simp [resolvePropertyWith] at h; subst h; simp
+  | cons c cs ih =>
+    unfold resolvePropertyWith at h
+    split at h
+    · cases h
+    · rename_i cell hc
+      split at h
+      · cases h
+      · rename_i rest hrest
+        cases h
+        obtain ⟨h1, h2⟩ := ih rest hrest
+        refine ⟨by simp [h1], ?_⟩
+        intro e he hnone
+        rcases List.mem_cons.mp he with rfl | he
+        · simp only at hnone
+          rw [hnone] at hc
+          cases hc; rfl
+        · exact h2 e he hnone
+
+theorem resolveNeighborsWith_spec {κ : Type} (resolver : Vertex → Outcome (List Vertex))
+    (ctxs : List (κ × Option Vertex)) (out : List ((κ × Option Vertex) × List Vertex))
+    (h : resolveNeighborsWith resolver ctxs = .ok out) :
+    out.map (·.1) = ctxs ∧ ∀ e ∈ out, e.1.2 = none → e.2 = [] := by
+  induction ctxs generalizing out with
+  | nil => simp [resolveNeighborsWith] at h; subst h; simp
+  | cons c cs ih =>
+    unfold resolveNeighborsWith at h
+    split at h
+    · cases h
+    · rename_i ns hc
+      split at h
+      · cases h
+      · rename_i rest hrest
+        cases h
+        obtain ⟨h1, h2⟩ := ih rest hrest
+        refine ⟨by simp [h1], ?_⟩
+        intro e he hnone
+        rcases List.mem_cons.mp he with rfl | he
+        · simp only at hnone
+          rw [hnone] at hc
+          cases hc; rfl
+        · exact h2 e he hnone
+
+
+/-- The neighbours along `implementer`, as the code computes them. -/
+theorem implementerNeighbors_eq {doc : Doc} {s : Schema} (h : AcceptedFacts doc s) {t : TypeDef}
+    (ht : t ∈ doc.types) :
+    resolveNeighbors s (.vertexType t) "VertexType" "implementer" .other =
+      .ok (((sortByName doc.types).filter (reportsImplementer t)).map Vertex.vertexType) := by
+  have hsub : s.subtypes t.name =
+      some (((sortByName doc.types).filter (reportsImplementer t)).map (·.name)) := by
+    simp only [Schema.subtypes, h.vertexTypes, findType_of_mem h.distinct.1 ht, Option.isSome_some, if_true]
+    rfl
+  simp only [asVertexType, Outcome.bind, resolveNeighbors,
+    String.reduceBEq, Bool.false_eq_true, if_false, if_true, hsub, h.vertexTypes]
+  rw [filterMap_find_names h.distinct.1 _ (fun x hx => (mem_sortByName _ _).mp (List.mem_filter.mp hx).1)]
+
+/-- Every vertex type — interface or not — is reported as its own implementer. -/
+theorem implementer_reports_self {doc : Doc} {s : Schema} (h : AcceptedFacts doc s) {t : TypeDef}
+    (ht : t ∈ doc.types) :
+    ∃ ns, resolveNeighbors s (.vertexType t) "VertexType" "implementer" .other = .ok ns ∧ ns ≠ [] := by
+  refine ⟨_, implementerNeighbors_eq h ht, ?_⟩
+  have : t ∈ (sortByName doc.types).filter (reportsImplementer t) :=
+    List.mem_filter.mpr ⟨(mem_sortByName _ _).mpr ht, by simp [reportsImplementer]⟩
+  intro hnil
+  have hnil' := List.map_eq_nil_iff.mp hnil
+  rw [hnil'] at this
+  simp at this
+
+/-! #### The `name`-candidate shortcut of `vertex_type_iter` -/
+
+theorem filter_name_eq {vts : List TypeDef} (hnd : (vts.map (·.name)).Nodup) (n : Name) :
+    vts.filter (fun t => t.name == n) = (findType vts n).toList := by
+  induction vts with
+  | nil => rfl
+  | cons y ys ih =>
+    simp only [List.map_cons, List.nodup_cons, List.mem_map, not_exists, not_and] at hnd
+    simp only [List.filter_cons, findType, List.find?_cons]
+    by_cases hy : y.name = n
+    · have hnone : ys.filter (fun t => t.name == n) = [] := by
+        rw [List.filter_eq_nil_iff]
+        intro x hx
+        have := hnd.1 x hx
+        simp only [beq_iff_eq]
+        intro hxn; exact this (hxn.trans hy.symm)
+      simp [hy, hnone]
+    · have hb : (y.name == n) = false := by simpa using hy
+      rw [hb]
+      have := ih hnd.2
+      simp only [findType] at this
+      simpa using this
+
+def propertyRowsNoDocs (t : TypeDef) : List Row :=
+  (t.fields.filter (fun f => isBuiltin f.ty.base)).map fun f =>
+    [("name", .str t.name), ("property", .str f.name), ("type", .str f.ty.display)]
+
+theorem perVertexType_property_eq {doc : Doc} {s : Schema} (h : AcceptedFacts doc s) {t : TypeDef}
+    (ht : t ∈ doc.types) :
+    perVertexType s "property" "Property" [("property", "name"), ("type", "type")] (.vertexType t) =
+      .ok (propertyRowsNoDocs t) := by
+  simp only [perVertexType, outputs, resolveProperty, asVertexType, Outcome.bind, expand, resolveNeighbors,
+    String.reduceBEq, Bool.false_eq_true, if_false, if_true, propertyNeighbors_eq h ht]
+  rw [collect_map, collect_singletons _ (fun f : Field =>
+    [("property", Cell.str f.name), ("type", Cell.str f.ty.display)])]
+  · simp [propertyRowsNoDocs]
+  · intro f _
+    simp [leaf, outputs, resolveProperty, asProperty, Outcome.bind]
+
+/-- With a statically known `name`, `vertex_type_iter` looks the type up instead of scanning all
+types; the rows are those of the scan followed by the engine's own filter. -/
+theorem introspect_byName_eq {doc : Doc} {s : Schema} (h : AcceptedFacts doc s) (n : Name) :
+    introspect s (.byName n) =
+      .ok (((listed doc s.queryType.name).filter (fun t => t.name == n)).flatMap propertyRowsNoDocs) := by
+  have hlisted : (listed doc s.queryType.name).filter (fun t => t.name == n) =
+      ((findType doc.types n).toList).filter (fun t => t.name != s.queryType.name) := by
+    unfold listed
+    rw [List.filter_filter, ← filter_name_eq h.distinct.1 n, List.filter_filter]
+    apply List.filter_congr
+    intro x _
+    exact Bool.and_comm _ _
+  rw [hlisted]
+  unfold introspect
+  simp only [startingVertices, String.reduceBEq, Bool.false_eq_true, if_false, if_true, Outcome.bind,
+    vertexTypeIter, h.vertexTypes]
+  cases hft : findType doc.types n with
+  | none => simp [Outcome.collect]
+  | some d =>
+    have hd := findType_some hft
+    have hdn := hd.2
+    subst hdn
+    by_cases hr : d.name = s.queryType.name
+    · simp [hr, Outcome.collect]
+    · simp [hr, Outcome.collect, nameIs, perVertexType_property_eq h hd.1]
+
+
 end TF.SchemaDoc
